@@ -41,6 +41,9 @@ func setup(times, keys bool, monotone bool, singleVersion bool) *env {
 	if monotone {
 		l.MonotoneTimes()
 	}
+	if n := vrt.Bound("realkeys", 0); n > 0 {
+		l.UseRealKeys(n)
+	}
 	l.Build("d")
 	lg, err := klevdb.Open(l.Dir, l.Options())
 	vrt.Assert(err == nil, "Open succeeds")
